@@ -110,7 +110,7 @@ func (r *apiRunner) observe() string {
 			return fmt.Sprintf("core cell %d: gmars %v, model %s", a, s.GetMem(g.Address(a)), insnStr(ref.Core[a]))
 		}
 	}
-	if inv := g.VerifInvariants(s); len(inv) > 0 {
+	if inv := verifInvariants(s); len(inv) > 0 {
 		return fmt.Sprintf("internal invariant: %v", inv)
 	}
 	return ""
